@@ -206,7 +206,9 @@ impl<'a> FmtVisitor<'a> {
                 // 2: blank lines.
                 self.push_vertical_spaces(newline_count);
                 status.cur_line += newline_count;
-                status.line_start = offset + lf_count + crlf_count * 2;
+                // The current line starts behind the last line break of the blank slice;
+                // the slice may hold white space other than line breaks, of any width.
+                status.line_start = offset + subslice.rfind('\n').map_or(0, |p| p + 1);
             } else {
                 // 3: code which we failed to format or which is not within file-lines range.
                 self.process_missing_code(&mut status, snippet, subslice, offset, file_name);
